@@ -123,7 +123,11 @@ func execPipeE[E any](c pipeCase, src core.Source, cd lib.Codec[E]) (res core.Re
 			outputs = Q.Split(group, input, uint(c.FanOut)).AsArray()
 		default:
 			mid := Q.Split(group, input, uint(c.FanOut))
-			outputs = []col.QueueLike[E]{Q.Join(group, mid)}
+			// the list of inputs handed to Join is the caller's: it is emptied (a scratch list reused) as soon
+			// as Join has returned, possibly before the helper goroutine has run at all
+			inputs := col.List[col.QueueLike[E]](n).MakeFromSequence(mid)
+			outputs = []col.QueueLike[E]{Q.Join(group, inputs)}
+			inputs.RemoveAll()
 		}
 		// the helpers must be registered with the caller's wait group before the function returns:
 		// otherwise a Wait() right after the call can return before a helper has even started
